@@ -3,7 +3,7 @@
    weights with positive total, all admissible parameters. *)
 From Coq Require Import Reals List Lra.
 From ADV Require Import Base.Num C16.Model C16.ModelHmm C16.Spec C16.ProofsMax C16.ProofsEM C16.ProofsModel
-  C16.ProofsBW C16.ProofsBW2 C16.ProofsBW3 C16.ProofsClamp C16.ModelVec C16.ProofsVec.
+  C16.ProofsBW C16.ProofsBW2 C16.ProofsBW3 C16.ProofsClamp C16.ModelVec C16.ProofsVec C16.ProofsDet.
 Import ListNotations.
 Open Scope R_scope.
 
@@ -284,13 +284,90 @@ Theorem vector_normal_diagonal_is_constrained_maximiser : forall n d w x smin,
     vll_diag n d w x mu v <= vll_diag n d w x (vmean n w x) (fun i => Rmax (vcov n w x i i) smin).
 Proof. exact vnormal_diagonal_max. Qed.
 
-(* full covariance, every dimension — PARTIAL: reduced to the matrix inequality ld - tr(L S) <= ld' - tr(L' S)
-   (for L' = S^-1: ln det(L S) <= tr(L S) - d), which is not proved for general d *)
-Theorem vector_normal_full_covariance_maximiser_partial : forall n d w x ld L ld' L' mu,
+(* full covariance, every dimension — the reduction step (round 3): given the matrix inequality
+   ld - tr(L S) <= ld' - tr(L' S) the estimate beats the candidate.  The inequality itself is discharged below. *)
+Theorem vector_normal_full_covariance_reduction : forall n d w x ld L ld' L' mu,
   0 < rsum n w -> psd d L ->
   ld - trLS d L (vcov n w x) <= ld' - trLS d L' (vcov n w x) ->
   vll n d w x ld L mu <= vll n d w x ld' L' (vmean n w x).
 Proof. exact vnormal_full_max_partial. Qed.
+
+(* Round 4.  Matrices are index functions read on indices < d.  ln det of a symmetric positive definite matrix is read off a
+   triangular factor T (upper triangular, positive diagonal):  ln det (T^t T) = ln det (T T^t) = sum_i 2 ln T_ii = [logdet_tri d T]
+   (no Leibniz determinant and no multiplicativity of det is formalised; every symmetric positive definite matrix has both
+   factorisations: the two existence theorems below, by induction on d through the Schur complement). *)
+
+(* the log-det inequality  ln det L + ln det S <= tr (L S) - d  for L = U^t U, S = G G^t, EVERY dimension *)
+Theorem logdet_trace_inequality : forall d U G,
+  utri d U -> posdiag d U -> utri d G -> posdiag d G ->
+  logdet_tri d U + logdet_tri d G <= trLS d (GtG d U) (GGt d G) - INR d.
+Proof. exact logdet_trace_ineq. Qed.
+
+(* Cholesky: every symmetric positive definite M is G G^t with G upper triangular, positive diagonal, and G has an (upper
+   triangular) left inverse Gi; every such M is also U^t U (the standard Cholesky factorisation) *)
+Theorem spd_has_upper_factor_and_inverse : forall d M, msym d M -> pdef d M ->
+  exists G Gi, utri d G /\ posdiag d G /\ utri d Gi /\
+    (forall i j, (i < d)%nat -> (j < d)%nat -> M i j = GGt d G i j) /\
+    (forall k m, (k < d)%nat -> (m < d)%nat -> mmul d Gi G k m = delta k m).
+Proof. exact chol_upper_exists. Qed.
+Theorem spd_has_cholesky_factor : forall d L, msym d L -> pdef d L ->
+  exists U, utri d U /\ posdiag d U /\ forall i j, (i < d)%nat -> (j < d)%nat -> L i j = GtG d U i j.
+Proof. exact chol_std_exists. Qed.
+
+(* FULL covariance, every dimension, every data set whose weighted moment matrix S = vcov is positive definite (the unclamped
+   estimator returns exactly (vmean, S)): S = G G^t, Gi = G^-1, so the returned distribution has precision Gi^t Gi = S^-1 with
+   ln det = logdet_tri Gi = - ln det S, and it beats EVERY candidate (mu, precision U^t U), U ranging over all upper triangular
+   matrices with positive diagonal, i.e. (second theorem) over the Cholesky factors of all symmetric positive definite L. *)
+Theorem vector_normal_full_covariance_is_maximiser : forall n d w x,
+  0 < rsum n w -> pdef d (vcov n w x) ->
+  exists G Gi, utri d G /\ posdiag d G /\ utri d Gi /\ posdiag d Gi /\
+    (forall i j, (i < d)%nat -> (j < d)%nat -> vcov n w x i j = GGt d G i j) /\
+    (forall k m, (k < d)%nat -> (m < d)%nat -> mmul d Gi G k m = delta k m) /\
+    forall U mu, utri d U -> posdiag d U ->
+      vll n d w x (logdet_tri d U) (GtG d U) mu <= vll n d w x (logdet_tri d Gi) (GtG d Gi) (vmean n w x).
+Proof. exact vnormal_full_max. Qed.
+Theorem vector_normal_full_covariance_is_maximiser_over_spd_precisions : forall n d w x,
+  0 < rsum n w -> pdef d (vcov n w x) ->
+  exists G Gi, utri d G /\ posdiag d G /\ utri d Gi /\ posdiag d Gi /\
+    (forall i j, (i < d)%nat -> (j < d)%nat -> vcov n w x i j = GGt d G i j) /\
+    (forall k m, (k < d)%nat -> (m < d)%nat -> mmul d Gi G k m = delta k m) /\
+    forall L mu, msym d L -> pdef d L ->
+      exists U, utri d U /\ posdiag d U /\ (forall i j, (i < d)%nat -> (j < d)%nat -> L i j = GtG d U i j) /\
+        vll n d w x (logdet_tri d U) L mu <= vll n d w x (logdet_tri d Gi) (GtG d Gi) (vmean n w x).
+Proof. exact vnormal_full_max_spd. Qed.
+(* ... and with the factors and an inverse L' of S supplied by the caller (any left inverse, ln det L' = - ln det S) *)
+Theorem vector_normal_full_covariance_is_maximiser_given_factors : forall n d w x U G L' mu,
+  0 < rsum n w ->
+  utri d U -> posdiag d U -> utri d G -> posdiag d G ->
+  (forall i j, (i < d)%nat -> (j < d)%nat -> vcov n w x i j = GGt d G i j) ->
+  (forall i k, (i < d)%nat -> (k < d)%nat -> mmul d L' (vcov n w x) i k = delta i k) ->
+  vll n d w x (logdet_tri d U) (GtG d U) mu <= vll n d w x (- logdet_tri d G) L' (vmean n w x).
+Proof. exact vnormal_full_max_factored. Qed.
+
+(* the SigmaMin clamp as coded ([vn_clamp] at R is Rmax; [vn_returned] = moment matrix with the diagonal clamped), positive part:
+   (a) clamp inactive (S_ii >= SigmaMin for all i): the returned matrix is S and is the maximiser among ALL positive definite
+       covariances, constrained or not, every dimension;
+   (b) S diagonal: the returned matrix is diag(max(S_ii, SigmaMin)), the optimum among all DIAGONAL covariances with
+       v_i >= SigmaMin (optimality against correlated competitors is not proved).
+   Outside (a) and (b) the claim is false: next theorem (finding F-VNORMAL-CLAMP). *)
+Theorem vector_normal_clamp_value : forall smin s, vn_clamp NumR smin s = Rmax s smin.
+Proof. exact vn_clamp_R. Qed.
+Theorem vector_normal_inactive_clamp_is_maximiser : forall n d w x smin,
+  0 < rsum n w -> (forall i, (i < d)%nat -> smin <= vcov n w x i i) -> pdef d (vn_returned smin (vcov n w x)) ->
+  exists G Gi, utri d G /\ posdiag d G /\ utri d Gi /\ posdiag d Gi /\
+    (forall i j, (i < d)%nat -> (j < d)%nat -> vn_returned smin (vcov n w x) i j = GGt d G i j) /\
+    (forall k m, (k < d)%nat -> (m < d)%nat -> mmul d Gi G k m = delta k m) /\
+    forall U mu, utri d U -> posdiag d U ->
+      vll n d w x (logdet_tri d U) (GtG d U) mu <= vll n d w x (logdet_tri d Gi) (GtG d Gi) (vmean n w x).
+Proof. exact vnormal_clamp_inactive_max. Qed.
+Theorem vector_normal_clamp_on_uncorrelated_data_is_diagonal_constrained_maximiser : forall n d w x smin,
+  (forall l, (l < n)%nat -> 0 <= w l) -> 0 < rsum n w -> 0 <= smin ->
+  (forall i j, (i < d)%nat -> (j < d)%nat -> i <> j -> vcov n w x i j = 0) ->
+  (forall i, (i < d)%nat -> 0 < Rmax (vcov n w x i i) smin) ->
+  (forall i j, (i < d)%nat -> (j < d)%nat -> i <> j -> vn_returned smin (vcov n w x) i j = 0) /\
+  forall mu v, (forall i, (i < d)%nat -> 0 < v i /\ smin <= v i) ->
+    vll_diag n d w x mu v <= vll_diag n d w x (vmean n w x) (fun i => vn_returned smin (vcov n w x) i i).
+Proof. exact vnormal_clamp_diagonal_max. Qed.
 
 (* ... and with an active clamp on correlated data the returned matrix is NOT the optimum under Sigma_ii >= SigmaMin
    (finding F-VNORMAL-CLAMP): the model returns [[4,2],[2,2]] for the data (2,1), (-2,-1) with SigmaMin = 2; the
@@ -309,4 +386,22 @@ Example vector_normal_hypotheses_satisfiable :
 Proof.
   simpl. split; [|lra]. intros u. unfold quad, bil. simpl.
   pose proof (Rle_0_sqr (u 0%nat)). pose proof (Rle_0_sqr (u 1%nat)). unfold Rsqr in *. lra.
+Qed.
+
+(* the positive definiteness hypothesis is satisfiable: four observations (1,2), (-1,-2), (1,-2), (-1,2) with weights 1, 2, 1, 2
+   have the mean (-1/3, 0) and the moment matrix [[8/9, 0], [0, 4]] *)
+Example vector_normal_pdef_hypothesis_satisfiable :
+  let x := fun l i : nat => match l, i with O, O => 1 | O, _ => 2 | 1%nat, O => -1 | 1%nat, _ => -2
+                                          | 2%nat, O => 1 | 2%nat, _ => -2 | _, O => -1 | _, _ => 2 end in
+  let w := fun l : nat => match l with O => 1 | 1%nat => 2 | 2%nat => 1 | _ => 2 end in
+  0 < rsum 4 w /\ pdef 2 (vcov 4 w x).
+Proof.
+  simpl. split; [lra|]. intros u (i & Hi & Hu).
+  assert (H : u 0%nat <> 0 \/ u 1%nat <> 0).
+  { destruct i as [|[|i]]; [left; exact Hu|right; exact Hu|exfalso]. do 2 apply Nat.succ_lt_mono in Hi. inversion Hi. }
+  unfold quad, bil, vcov, vmean. simpl.
+  set (a := u 0%nat) in *. set (b := u 1%nat) in *.
+  match goal with |- 0 < ?e => replace e with (8/9 * (a * a) + 4 * (b * b)) by field end.
+  pose proof (Rle_0_sqr a) as Ha. pose proof (Rle_0_sqr b) as Hb. unfold Rsqr in Ha, Hb.
+  destruct H as [H|H]; apply Rsqr_pos_lt in H; unfold Rsqr in H; lra.
 Qed.
